@@ -274,7 +274,7 @@ Print Assumptions C03_typed_clash_free.
 
 (* The preservation theorem with static hypotheses only: shape (pre_check, focus_wf), chirality-consistent
    scoping (cs_prog) and static_ok = simply typed (tc_prog && tc_entry) or inside a syntactic guard.
-   Of the 919 in-precondition cases of the quick suite 908 satisfy all of them (the others: 11 fun2core
+   Of the 919 in-precondition cases of the quick suite 903 satisfy all of them (the others: 11 fun2core
    outputs / hand-built programs with an occurrence of the wrong chirality - the capture defect). *)
 Theorem C03_uniquify_focus_preserves_static :
   forall p q args fuel,
